@@ -195,6 +195,10 @@ fn run_case(ctx: &mut Ctx, idx: u64) {
         let pol = walker::policy_for_step(&mut rng, step, steps);
         let Some(t) = choose_via_fresh(&mut rng, &f, &g, &v, &hist, pol) else { break };
         if m.consume_token(t).is_err() {
+            if crate::tp::accepted_with_relaxed_limits(&v, None, &g, &hist, t) {
+                ctx.rep.inconclusive("resource_stop");
+                return;
+            }
             viol(ctx, idx, &g, &v, &hist, &ops, "token_from_fresh_mask_rejected", json!({"token": t}));
             return;
         }
